@@ -5,12 +5,12 @@ Header level: the writer's header model vs the bytes the library emits (props/c0
 import hashlib, os
 import vlib
 
-THEOREMS = ["C01_write_terminates", "C01_chunks_are_the_content", "C01_segmentation_irrelevant", "C01_written_file_verifies_and_decodes",
+THEOREMS = ["C01_write_terminates", "C01_chunks_are_the_content", "C01_segmentation_irrelevant", "C01_written_file_verifies_and_decodes", "C01_write_then_read_roundtrip",
             "C01_tool_scan_no_crash", "C01_tool_scan_preserves_content", "C01_tool_scan_end_before_split", "C01_tool_read_error_reported"]
 ASSUMPTIONS = [
     "zstd is an oracle: round trip zdecomp(zcomp x) = x is assumed by the theorems and tested by the run",
     "models: Chunk/Writer.v (chunker), Chunk/ZckTool.v (tool scanner), Format/HeaderWrite.v (header creation), Format/ParseImpl.v (reader header path); "
-    "the reader's data path completeness (a valid file reads back completely under every buffer-size sequence) is covered by the differential run, see DESIGN.md",
+    "Read/CompRead.v (reader data path; completeness theorem read_complete)",
 ]
 
 WORDS = [b"alpha", b"beta ", b"<text:", b"gamma\n", b"0123456789", b" ", b"zchunk"]
